@@ -14,7 +14,7 @@ import (
 func init() {
 	propertyRules["C07"] = []ruleFn{rulePreCommitEnabled, ruleCommitAMEV, rulePreBlockOnce, ruleHeaderAfterPreBlock, ruleCacheObl, ruleDefs}
 	propertyExplain["C07"] = "Anti-MEV phase order at every site: PreCommit sends, the pre-commit handler dispatch and the optional callbacks NewPreBlockFromContext/NewPreCommit/ProcessPreBlock are reachable only with the extension enabled at the current height (enabling predicate checked to be EnablingHeight>=0 ∧ EnablingHeight<=BlockIndex); a Commit is constructed under anti-MEV only with an own PreCommit, an M-of-N current-view PreCommit quorum and the pre-block processed; ProcessPreBlock is called only while its flag is unset and the flag is set only after the callback returned nil; the header is built only after the pre-block. Multi-node recovery interplay is not decided."
-	propertyRules["C05"] = []ruleFn{ruleAcceptOnce, ruleQuiesce, ruleResetCover, ruleViewResetCover, ruleTip, ruleCacheAgree, ruleCacheObl}
+	propertyRules["C05"] = []ruleFn{ruleAcceptOnce, ruleQuiesce, ruleResetCover, ruleViewResetCover, ruleTip, ruleCacheAgree, ruleCacheObl, ruleCachePrune}
 	propertyExplain["C05"] = "ProcessBlock is reachable only while the block-sent flag is unset and the flag is set on every path after a successful callback, cleared only by the height reset (S-ACCEPT-ONCE); every effect site (Context write, typed send other than a recovery message, effectful callback) reachable from OnReceive/OnTimeout/OnTransaction/OnNewTransaction is behind the ¬BlockSent admission (G-QUIESCE); every Context field is assigned or cleared on every view-0 path of the epoch writer except a reasoned table of carry-overs (F-RESET-COVER); ledger-derived fields come from the callbacks (P-TIP); every payload kind diverted to the future cache has a bucket that the initialiser replays and removes (A-CACHE). Retention of inboxes for skipped heights (memory only) is not decided."
 	propertyRules["C08"] = []ruleFn{ruleCacheAgree, ruleHeaderAfterPreBlock, ruleRespMatch, ruleInitArms}
 	propertyExplain["C08"] = "Decides only structural necessary conditions named by the anchors: A-CACHE (below), plus the header-after-pre-block order, the purge of mismatching early responses and the arming of the timer on every initialisation. A-CACHE: every kind of early payload is kept in a bucket of the future-message cache and replayed on every initialisation (not only at view 0), and the entered height is removed from the cache. That all nodes decide in view 0 without timeouts quantifies over timer values and multi-node schedules and is not applicable to static analysis."
@@ -1311,4 +1311,106 @@ func nilAgrees(sn *Snap, loc string) bool {
 	}
 	v, ok := sn.F.value(mkAtom("nn", fld(loc, false), nil))
 	return ok && !v
+}
+
+// O-CACHE-PRUNE (C05): "nothing from earlier heights retained". Early payloads are kept in a map keyed by height; the
+// lookup at initialisation removes the entry of the height that is entered. Entries of heights the node never enters —
+// skipped by ledger sync, or of a higher view of a height that was decided in a lower one — must go too: somewhere on
+// the initialisation path the map is replaced, or it is ranged over with its keys deleted.
+func ruleCachePrune(c *RC) *RuleResult {
+	r := &RuleResult{Rule: "O-CACHE-PRUNE", Kind: "OWN", Doc: "the map of early payloads is emptied of heights that are over when a height is entered: it is replaced, or ranged over with keys deleted, in a function the initialiser reaches"}
+	// the map: a field of map type whose element (pointer) type is the inbox
+	var mapField *types.Var
+	for name, st := range c.Prog.Structs {
+		_ = name
+		for i := 0; i < st.NumFields(); i++ {
+			if m, ok := st.Field(i).Type().Underlying().(*types.Map); ok {
+				el := m.Elem()
+				if p, ok := el.(*types.Pointer); ok {
+					el = p.Elem()
+				}
+				if namedName(el) == "inbox" {
+					mapField = st.Field(i)
+				}
+			}
+		}
+	}
+	if mapField == nil {
+		r.Sites++
+		r.unresolved("map of inboxes keyed by height")
+		return r
+	}
+	reach := map[*FuncInfo]bool{}
+	var visit func(f *FuncInfo, d int)
+	visit = func(f *FuncInfo, d int) {
+		if reach[f] || d > 6 {
+			return
+		}
+		reach[f] = true
+		for _, s := range c.A.FnSites[f] {
+			if s.Kind == "call" && s.Target != nil {
+				visit(s.Target, d+1)
+			}
+		}
+	}
+	for _, ini := range c.initialisers() {
+		visit(ini, 0)
+	}
+	isMap := func(info *types.Info, e ast.Expr) bool {
+		sel, ok := ast.Unparen(e).(*ast.SelectorExpr)
+		if !ok {
+			return false
+		}
+		s := info.Selections[sel]
+		return s != nil && s.Kind() == types.FieldVal && s.Obj().(*types.Var).Origin() == mapField
+	}
+	pruned := ""
+	for fn := range reach {
+		if fn.Decl == nil || fn.Decl.Body == nil || fn.Pkg.PkgPath != modPath {
+			continue
+		}
+		info := fn.Pkg.TypesInfo
+		ast.Inspect(fn.Decl.Body, func(n ast.Node) bool {
+			switch x := n.(type) {
+			case *ast.RangeStmt:
+				if !isMap(info, x.X) {
+					return true
+				}
+				ast.Inspect(x.Body, func(m ast.Node) bool {
+					if call, ok := m.(*ast.CallExpr); ok && len(call.Args) == 2 {
+						if id, ok := ast.Unparen(call.Fun).(*ast.Ident); ok && id.Name == "delete" && isMap(info, call.Args[0]) {
+							if _, isB := info.Uses[id].(*types.Builtin); isB {
+								pruned = fn.Name + " ranges over the map and deletes keys"
+							}
+						}
+					}
+					return true
+				})
+			case *ast.AssignStmt:
+				for _, lhs := range x.Lhs {
+					if isMap(info, lhs) {
+						pruned = fn.Name + " replaces the map"
+					}
+				}
+			case *ast.CallExpr:
+				if id, ok := ast.Unparen(x.Fun).(*ast.Ident); ok && id.Name == "clear" && len(x.Args) == 1 && isMap(info, x.Args[0]) {
+					if _, isB := info.Uses[id].(*types.Builtin); isB {
+						pruned = fn.Name + " clears the map"
+					}
+				}
+			}
+			return true
+		})
+	}
+	r.Sites++
+	if pruned != "" {
+		r.ok("heights that are over are dropped from the map of early payloads: " + pruned)
+	} else {
+		where := ""
+		for _, ini := range c.initialisers() {
+			where = c.Prog.Pos(ini.Decl)
+		}
+		r.fail("cache/heights-over-are-kept", where, "the map of early payloads ("+mapField.Name()+") loses only the entry of the height being entered: payloads cached for heights the ledger skipped, and for higher views of a height decided in a lower one, stay for the life of the instance — the node retains traffic of earlier heights without bound")
+	}
+	return r
 }
